@@ -6,7 +6,9 @@ import (
 	"encoding/hex"
 	"fmt"
 	"os"
+	"os/exec"
 	"path/filepath"
+	"strconv"
 	"strings"
 
 	"github.com/koron-go/z80"
@@ -237,11 +239,51 @@ func runC17(c *Ctx) {
 			c.R.Sample(map[string]interface{}{"image": t.name + ".cim", "sha256": digest, "case": 0, "desc": recs[0].Msg, "record": recs[0].Raw, "go_record": hex.EncodeToString(goRecord(t.cases[0]))})
 		}
 	}
+	// build configurations: the tables are Go data that build constraints can swap.  The
+	// check script also builds this monitor with -race (build tag "race", the
+	// configuration of `go test -race`) and the comparison is repeated in that binary.
+	configs := []string{"default"}
+	if os.Getenv("VERIF_C17_CHILD") == "" {
+		for _, kv := range strings.Fields(os.Getenv("VERIF_ALT_BINS")) {
+			name, bin, ok := strings.Cut(kv, "=")
+			if !ok {
+				continue
+			}
+			outDir := filepath.Join(c.Tmp, "alt-"+name)
+			os.MkdirAll(outDir, 0o755)
+			cmd := exec.Command(bin, "-prop", "C17", "-tier", c.Tier, "-seed", strconv.FormatInt(int64(c.Seed), 10), "-tmp", outDir)
+			cmd.Env = append(os.Environ(), "VERIF_C17_CHILD=1", "VERIF_OUT="+outDir)
+			ob, err := cmd.CombinedOutput()
+			out := string(ob)
+			nviol := 0
+			for _, ln := range strings.Split(out, "\n") {
+				if strings.HasPrefix(strings.TrimSpace(ln), "signature: ") {
+					nviol++
+					c.R.Violation("C17/"+name+"-build/"+strings.TrimPrefix(strings.TrimSpace(ln), "signature: C17/"), map[string]interface{}{
+						"what": "the exerciser tables linked into a " + name + " build differ from the canonical images (the default build's tables " + map[bool]string{true: "agree", false: "differ too"}[c.R.Violations() == 0] + ")",
+						"configuration": name, "child_output_head": out[:min(len(out), 1500)]})
+				}
+			}
+			switch {
+			case nviol > 0:
+			case err != nil || !strings.Contains(out, "SUMMARY property=C17"):
+				c.R.Inconclusive("the " + name + " build of the monitor did not complete: " + fmt.Sprint(err))
+			default:
+				configs = append(configs, name)
+				evals *= 2
+				fields *= 2
+			}
+		}
+		if len(configs) < 2 && os.Getenv("VERIF_ALT_BINS") == "" {
+			c.R.Assume("only the default build configuration was compared (no alternative binary was provided by the check script)")
+		}
+	}
+	c.R.Set("build_configurations_compared", configs)
 	c.R.Set("evaluations", evals)
 	c.R.Set("record_fields_compared", fields)
 	c.R.Set("iterator_vectors_compared", iterChecks)
 	c.R.Set("distinct_nontrivial", fields)
 	c.R.Set("exhaustive", true)
-	c.R.Set("rule", "finite and compared completely: sha256 of cmd/zexdoc/zexdoc.cim and zexall.cim against the pinned digests of the pristine images; the pointer table is located by decoding `ld hl,tests` in the image AND by running the canonical program on the emulator with a breakpoint on its test-dispatch routine (address read from the CALL in its main loop; mini environment RET at 0005, stack word at 0006, HALT at 0000), harvesting the record at each arrival until the program's own end-of-list test warm-boots; for each of the 2 x 67 cases the flag mask, base/increment/shift vectors (20 bytes each), expected CRC and the description (dot padding stripped) of zex.DocCases / zex.AllCases as linked from /repo are compared byte for byte with the record, in order, no case missing, none duplicated. additionally Case.Maxes and (sampled to <= 40000 per case) Iter.Status vectors are compared with the harness's own port of the counter/shifter. One evaluation = one field comparison; all are distinct and non-trivial")
+	c.R.Set("rule", "finite and compared completely: sha256 of cmd/zexdoc/zexdoc.cim and zexall.cim against the pinned digests of the pristine images; the pointer table is located by decoding `ld hl,tests` in the image AND by running the canonical program on the emulator with a breakpoint on its test-dispatch routine (address read from the CALL in its main loop; mini environment RET at 0005, stack word at 0006, HALT at 0000), harvesting the record at each arrival until the program's own end-of-list test warm-boots; for each of the 2 x 67 cases the flag mask, base/increment/shift vectors (20 bytes each), expected CRC and the description (dot padding stripped) of zex.DocCases / zex.AllCases as linked from /repo are compared byte for byte with the record, in order, no case missing, none duplicated. additionally Case.Maxes and (sampled to <= 40000 per case) Iter.Status vectors are compared with the harness's own port of the counter/shifter. The whole comparison is repeated in a second binary built with -race (build constraints can swap Go data per configuration; `go test -race` is a configuration the suite is run in). One evaluation = one field comparison; all are distinct and non-trivial")
 	c.R.Assume("pins/ holds the digests and records of the pristine images (generated once from the pinned tree)")
 }
